@@ -167,7 +167,7 @@ fn noise_string(mut idx: usize, len: usize) -> String {
 pub fn run() -> i32 {
     let mut r = Report::new("C02");
     let thorough = r.thorough();
-    r.rule = "four exhaustive families, every case through compile + Rule::apply per word and through run / trace_changes / get_trace_string: (1) every rule of rulegen(n) x hand-shaped words; (2) every rule at token-edit distance 1 (delete, duplicate, replace by / insert each of 48 tokens) from a frozen corpus of documented, test-suite and example-project rules x 8 words; (3) every string of <= m chars over a 48-char alphabet as rule, word, deromaniser and romaniser; (4) over-large and odd numeric literals in every position that takes digits; (6) every feature / node / suprasegmental spelling and 13 near-names x 11 value forms (binary, alpha, inverted alpha, capital alpha, last Greek letter, malformed) x 12 slots (input, output, context, exception, syllable, structure, insertion, metathesis, both alias directions) and numeric forms x 5 slots; (5) every romaniser whose input is a sequence of 1..k elements over 11 element kinds (segments and matrices with length / stress modifiers, `$`) x 3 replacement kinds, and every deromaniser with such an output, on 10 words with long segments at syllable ends. Oracle: returns Ok or Err within the step budget 2 000 + 20 (|w|+1)(|r|+1); any panic or budget exhaustion is a violation. Non-trivial = returned Ok.".into();
+    r.rule = "four exhaustive families, every case through compile + Rule::apply per word and through run / trace_changes / get_trace_string: (1) every rule of rulegen(n) x hand-shaped words; (1c, quick) every two-item environment decoration of five fixed input/output skeletons; (2) every rule at token-edit distance 1 (delete, duplicate, replace by / insert each of 48 tokens) from a frozen corpus of documented, test-suite and example-project rules x 8 words; (3) every string of <= m chars over a 48-char alphabet as rule, word, deromaniser and romaniser; (4) over-large and odd numeric literals in every position that takes digits; (6) every feature / node / suprasegmental spelling and 13 near-names x 11 value forms (binary, alpha, inverted alpha, capital alpha, last Greek letter, malformed) x 12 slots (input, output, context, exception, syllable, structure, insertion, metathesis, both alias directions) and numeric forms x 5 slots; (5) every romaniser whose input is a sequence of 1..k elements over 11 element kinds (segments and matrices with length / stress modifiers, `$`) x 3 replacement kinds, and every deromaniser with such an output, on 10 words with long segments at syllable ends. Oracle: returns Ok or Err within the step budget 2 000 + 20 (|w|+1)(|r|+1); any panic or budget exhaustion is a violation. Non-trivial = returned Ok.".into();
     r.assumptions.push("release build semantics (debug_assert off), as shipped".into());
     r.assumptions.push("stack overflow / allocation failure would abort the check (exit code != 0,1), never pass silently".into());
     let mut tot = Acc::default();
@@ -186,6 +186,18 @@ pub fn run() -> i32 {
     r.boxes.push(json!({"box": format!("1 grammar: rulegen({})", n), "calls": f1.evals, "ok": f1.ok, "err": f1.err, "crash_classes": f1.crashes.len(), "max_ticks_permille_of_budget": f1.maxp}));
     r.guard(f1.ok > 10_000 && f1.err > 100, "grammar family: both Ok and Err outcomes occur");
     tot.merge(f1);
+    // ---- family 1c (quick tier; the thorough tier has all of rulegen(4)): every environment decoration of exactly two items (context, exception,
+    // context + exception, environment sets, condensed environments, special environment) on five fixed input/output skeletons
+    if !thorough {
+        let sk: Vec<(rulegen::GenRule, usize)> = rulegen::bases_of_size(2).into_iter().filter(|(b, _)| { let t = b.text(); ["a > i", "C > *", "* > i", "V > [+long]", "% > [+stress]"].contains(&t.as_str()) }).collect();
+        let mut f1c = Acc::default();
+        let mut erules: Vec<String> = vec![];
+        for (b, _) in &sk { for r in rulegen::expand(b, 2) { erules.push(r.text()); } }
+        par_fold(erules.len(), 64, Acc::default, |i, a| rule_case(&erules[i], &words, "env2", a), |a| f1c.merge(a));
+        r.boxes.push(json!({"box": "1c two-item environments on 5 skeletons", "skeletons": sk.len(), "rules": erules.len(), "calls": f1c.evals, "ok": f1c.ok, "err": f1c.err, "crash_classes": f1c.crashes.len()}));
+        r.guard(sk.len() == 5 && f1c.ok > 10_000, "family 1c: five skeletons found, more than 10k calls returned Ok");
+        tot.merge(f1c);
+    }
     // ---- family 1b: cursor arithmetic (length-changing, set and variable elements in multi-element substitutions)
     let cin = ["V:[+long]", "a:[-long]", "{p,a}", "C", "V", "C=1", "[+long]"];
     let cout = ["[-long]", "[+long]", "{t,i}", "i", "i:[+long]", "1", "[+voice]", "[+overlong]"];
